@@ -478,7 +478,8 @@ def _recycle_processes(case, tally):
            "--graceful-timeout", "2", "hv.apps.procapp:app"]
     if jitter:
         cmd[-1:-1] = ["--max-requests-jitter", str(jitter)]
-    proc = subprocess.Popen(cmd, env=env, stdout=subprocess.PIPE, stderr=subprocess.STDOUT, cwd=d)
+    proc = subprocess.Popen(cmd, env=env, stdout=subprocess.PIPE, stderr=subprocess.STDOUT, cwd=d,
+                            start_new_session=True)  # (a process group of its own: workers a master leaves behind are cleared away with it)
     answers, errors, rc, out = [], [], None, b""
     try:
         end = time.monotonic() + 20.0
@@ -527,9 +528,16 @@ def _recycle_processes(case, tally):
         except subprocess.TimeoutExpired:
             rc = "timeout"
     finally:
+        try:
+            os.killpg(proc.pid, signal.SIGKILL)
+        except (ProcessLookupError, PermissionError):
+            pass
         if proc.poll() is None:
             proc.kill()
-            proc.communicate()
+        try:
+            proc.communicate(timeout=10.0)
+        except subprocess.TimeoutExpired:
+            pass
         log = open(logf).read().splitlines() if os.path.exists(logf) else []
         shutil.rmtree(d, ignore_errors=True)
     starts, order = {}, []
